@@ -11,7 +11,7 @@ import sys
 import time
 import tomllib
 
-from .assemble import VERIF, REPO, load_unit
+from .assemble import VERIF, REPO, load_unit, EVIDENCE_DIR, REPLAY_DIR
 from . import verusrun
 from . import kanirun
 
@@ -49,7 +49,7 @@ def sanitize(s):
 
 
 def write_replay(pid, ob, unit_res, extra=""):
-    d = os.path.join(VERIF, "replay", pid)
+    d = os.path.join(REPLAY_DIR, pid)
     os.makedirs(d, exist_ok=True)
     path = os.path.join(d, sanitize(ob["id"]) + ".txt")
     with open(path, "w") as f:
@@ -184,7 +184,7 @@ def main(argv):
                 target.append(entry)
             else:
                 ob = dict(id=h["id"], engine="kani/cbmc", msgs=[dict(rendered=h.get("failure_text", ""))], log_tail=h.get("log_tail", ""))
-                path, found = kanirun.write_replay(pid, h, os.path.join(VERIF, "replay", pid))
+                path, found = kanirun.write_replay(pid, h, os.path.join(REPLAY_DIR, pid))
                 violations.append((h["id"], path, "" if found else "no-failing-input-found"))
                 entry["replay"] = path
                 target.append(entry)
@@ -236,8 +236,8 @@ def main(argv):
         wall_s=round(wall, 2),
         violations=len(violations),
     )
-    os.makedirs(os.path.join(VERIF, "evidence"), exist_ok=True)
-    with open(os.path.join(VERIF, "evidence", pid + ".json"), "w") as f:
+    os.makedirs(EVIDENCE_DIR, exist_ok=True)
+    with open(os.path.join(EVIDENCE_DIR, pid + ".json"), "w") as f:
         json.dump(ev, f, indent=1, default=str)
     print("SUMMARY property=%s tier=%s obligations=%d discharged=%d bounded=%d known_findings=%d undecided=%d violations=%d wall=%.1fs" % (
         pid, tier, n_ob, n_dis, len(bounded), len(known_hits), len(undecided), len(violations), wall))
